@@ -59,14 +59,14 @@ Theorem C03_fasta_partial :
     fasta_from_data_pinned w es = Some (List.concat (map (fun e => [62] ++ fst e ++ [10] ++ wrap w (snd e)) es)).
 Proof. exact fasta_layout_all. Qed.
 Print Assumptions C03_fasta_partial.
-(* the repaired from_data (last-line length only for entries with lines): the same layout on the same
-   tables; empty sequences are then written as a bare header line (Example below) *)
-Theorem C03_fasta_fixed_nonempty :
+(* the repaired from_data (last-line length stored only for entries that have lines): full strength —
+   every width w >= 1 and EVERY table; an empty sequence is written as a bare header line *)
+Theorem C03_fasta_fixed :
   forall (w : Z) (es : list (list Z * list Z)),
-    1 <= w -> Forall (fun e => snd e <> []) es ->
+    1 <= w ->
     fasta_from_data_fixed w es = Some (List.concat (map (fun e => [62] ++ fst e ++ [10] ++ wrap w (snd e)) es)).
-Proof. exact fasta_fixed_layout_nonempty. Qed.
-Print Assumptions C03_fasta_fixed_nonempty.
+Proof. exact fasta_fixed_layout_all. Qed.
+Print Assumptions C03_fasta_fixed.
 
 (* an empty sequence trips the shape assertion: (0-1)//w + 1 = 0 lines *)
 Theorem C03_fasta_refuted : exists (w : Z) (es : list (list Z * list Z)), 1 <= w /\ fasta_from_data_pinned w es = None.
